@@ -21,9 +21,9 @@ from ..gen import c11_gen as GEN
 PID = "C11"
 COQ_HEADER = ("From Coq Require Import List NArith ZArith.\nImport ListNotations.\n"
               "From SK Require Import lib.Tok lib.LGraph model.C11_Model model.C11_State model.C11_Partial.\nLocal Open Scope N_scope.\n")
-SHARD = 250
-IMPL_TIMEOUT = 2400
-COQ_TIMEOUT = 1500
+SHARD = 100
+IMPL_TIMEOUT = 600
+COQ_TIMEOUT = 600
 
 RULE = ("aut: labelled graphs (all isomorphism classes up to 3 nodes over {C,O}x{hcount 0,1}x{single,double}; 4 nodes: all 705 classes over "
         "{C,O}x{single,double} [the labels the exact analysis sees] plus, quick: a seeded sample of 1500 / thorough: all 9291 classes with "
@@ -283,7 +283,15 @@ def _impl_dedup(case):
 _DEDUP_NAMES = ("deduplicate_matches_by_automorphisms", "deduplicate_matches_with_anchor")
 
 
-def _reactor(case, mode):
+def _shared_rule(case):
+    """ONE SynRule object for a whole history (the reactor returns a SynRule template as it is when invert=False)"""
+    from synkit.IO.chem_converter import rsmi_to_its
+    from synkit.Rule.syn_rule import SynRule
+    from synkit.Graph.canon_graph import GraphCanonicaliser
+    return SynRule(rsmi_to_its(case["tpl"], core=case["core"]), canonicaliser=GraphCanonicaliser())
+
+
+def _reactor(case, mode, rule=None):
     """mode: 'record' (unchanged code, record the input/output of the pruning call), 'raw' (pruning bypassed),
     'front' (only rule + mappings).  Returns dict(raw, kept, n_aut, rc, smarts, its)."""
     import networkx as nx
@@ -314,7 +322,7 @@ def _reactor(case, mode):
                     k["prune_auto"] = False
                     super().__init__(*a, **k)
             SR.PartialMatcher = _NoPrune
-        tpl = rsmi_to_its(case["tpl"], core=case["core"])
+        tpl = rule if rule is not None else rsmi_to_its(case["tpl"], core=case["core"])
         r = SR.SynReactor(case["sub"], tpl, invert=case["invert"], **case.get("opts", {}))
         maps = r.mappings
         n_calls = rec.get("calls", 0)
@@ -347,8 +355,8 @@ def _flat(g):
     return h
 
 
-def _impl_prune(case):
-    r = _reactor(case, "front")
+def _impl_prune(case, rule=None):
+    r = _reactor(case, "front", rule=rule)
     return [[r["raw"], r["kept"], r["n_aut"]], True, True, (not _prune_representatives(r)) and r["reread"]]
 
 
@@ -474,7 +482,8 @@ def _impl_hist(case):
             refits.append([[col[n] for n in G.nodes()]])
         return [out, [reads, refits]]
     if case["script"] == "prune":
-        return [_impl_prune(st) for st in case["steps"]]
+        rule = _shared_rule(case["steps"][0]) if case.get("share_rule") else None
+        return [_impl_prune(st, rule=rule) for st in case["steps"]]
     raise AssertionError(case["script"])
 
 
@@ -515,8 +524,9 @@ def _oracle_hist(case):
                                                                   % (k, o, [col.get(n) for n in o])))
                     break
     elif case["script"] == "prune":
+        rule = _shared_rule(case["steps"][0]) if case.get("share_rule") else None
         for k, st in enumerate(case["steps"]):
-            for f in _oracle_prune(st):
+            for f in _oracle_prune(st, rule=rule):
                 f = dict(f, detail="step %d (%s on %s): %s" % (k, st["tpl"], st["sub"], f["detail"]))
                 if "key" in f:
                     f["key"] = "hist|%d|%s" % (k, f["key"])
@@ -545,6 +555,50 @@ def impl(case):
 
 MONO_BUDGET = 600000      # ~1 s of vm_compute (measured: 2e-6 s per unit)
 DEDUP_BUDGET = 2000000
+
+
+AUT_BUDGET = 800          # automorphisms of one component the model is asked to enumerate (orbit union is quadratic)
+
+
+def _count_auts(nodes, lab, adj, cap):
+    """number of label-preserving automorphisms, counting stops above cap"""
+    order, seen = [], set()
+    for s0 in nodes:
+        if s0 in seen:
+            continue
+        seen.add(s0)
+        q = [s0]
+        while q:
+            u = q.pop(0)
+            order.append(u)
+            for w in adj[u]:
+                if w not in seen:
+                    seen.add(w)
+                    q.append(w)
+    pos = {u: i for i, u in enumerate(order)}
+    anchor = {u: next((w for w in adj[u] if pos[w] < pos[u]), None) for u in order}
+    n = len(order)
+    cnt = 0
+
+    def rec(i, m, used):
+        nonlocal cnt
+        if cnt > cap:
+            return
+        if i == n:
+            cnt += 1
+            return
+        u = order[i]
+        for v in (list(adj[m[anchor[u]]]) if anchor[u] is not None else nodes):
+            if v in used or lab[u] != lab[v] or len(adj[u]) != len(adj[v]):
+                continue
+            if all(adj[v].get(m[w]) == x for w, x in adj[u].items() if w in m):
+                m[u] = v
+                used.add(v)
+                rec(i + 1, m, used)
+                del m[u]
+                used.discard(v)
+    rec(0, {}, set())
+    return cnt
 
 
 def _mono_cost(g, labn, labe, cap):
@@ -584,13 +638,21 @@ def coq_case(case):
     if k == "aut":
         if not _in_domain(case["g"]):
             return None
-        if len(case["g"]["nodes"]) > 12:        # the analysis enumerates per component; >= 100 atoms in one component: oracle only
+        if len(case["g"]["nodes"]) > 6:
+            # model budget (the analysis enumerates per component): the verified enumerator costs n*depth*|E| per search node
+            # (>= 100 atoms in one component: oracle only), and the orbit union is quadratic in the number of
+            # automorphisms (K4,4 with 1152: 15-20 s of vm_compute; 5040 for a 7-leaf star: more than a minute)
             g = case["g"]
             cost = 0
             for c in _components(g):
                 cs = set(c)
                 sub = {"nodes": [x for x in g["nodes"] if x[0] in cs], "edges": [e for e in g["edges"] if e[0] in cs and e[1] in cs]}
-                cost += _mono_cost(sub, _lab_a, lambda a: GG.half(a["order"]), 8 * MONO_BUDGET)
+                if len(cs) > 12:
+                    cost += _mono_cost(sub, _lab_a, lambda a: GG.half(a["order"]), 8 * MONO_BUDGET)
+                if len(cs) > 6:
+                    lab = {n: _lab_a(a) for n, a in sub["nodes"]}
+                    if _count_auts(list(lab), lab, _adj(sub, lambda a: GG.half(a["order"])), AUT_BUDGET) > AUT_BUDGET:
+                        return None
             if cost > 8 * MONO_BUDGET:
                 return None
         return "run_aut_wf %s" % _coq_graph(case["g"])
@@ -871,9 +933,9 @@ def _std_set(smarts):
     return out
 
 
-def _oracle_prune(case):
-    a = _reactor(case, "record")
-    b = _reactor(case, "raw")
+def _oracle_prune(case, rule=None):
+    a = _reactor(case, "record", rule=rule)
+    b = _reactor(case, "raw", rule=rule)
     fails = []
     sa, sb = _std_set(a["smarts"]), _std_set(b["smarts"])
     if sa != sb:
@@ -941,6 +1003,10 @@ def oracle(case):
 # ------------------------------------------------------------------ shrinking / neighbours
 
 def shrink(case, fl):
+    if case["kind"] == "aut" and len(case["g"]["nodes"]) > 14:
+        return case                      # every shrinking step re-runs the oracle: bounded work only
+    if case["kind"] == "dedup" and len(case["ms"]) > 40:
+        return case
     if case["kind"] == "aut":
         g = case["g"]
         changed = True
@@ -974,6 +1040,8 @@ def shrink(case, fl):
 
 
 def neighbours(case, rng):
+    if case["kind"] == "aut" and len(case["g"]["nodes"]) > 14:
+        return []
     if case["kind"] == "aut":
         g = case["g"]
         out = []
